@@ -96,7 +96,7 @@ theorem handleCoincidentEdgesBelow_fr {P : St α → Prop} (hP : FrameP P) :
   with skip
   case vc2 => omega
   case vc3 =>
-    rename_i s0 _ m hm pref cur suff hr _ idx s h a b _ _ _ _ _ _ _ _ _ _ _
+    rename_i s0 _ m hm pref cur suff hr _ idx s h a b _ _ _ _ _ _ _ _ _ _ _ _ _
     have := range_split hr
     refine ⟨h.1, ?_⟩
     have := h.2
@@ -104,7 +104,7 @@ theorem handleCoincidentEdgesBelow_fr {P : St α → Prop} (hP : FrameP P) :
     show m - 2 - cur + 1 + 1 ≤ _
     omega
   case vc4 =>
-    rename_i s0 _ m hm pref cur suff hr _ idx s1 _ a b _ _ _ _ _ _ _ _ _ _ _ _ s h
+    rename_i s0 _ m hm pref cur suff hr _ idx s1 _ a b _ _ _ _ _ _ _ _ _ _ _ _ _ _ s h
     have := range_split hr
     refine ⟨h.1, ?_⟩
     have h2 : m - 2 - cur + 1 ≤ s.below.size := h.2
